@@ -6,7 +6,7 @@ namespace Sem
 
 theorem sane_of {p : Program} (hs : p.saneNames = true) {j : Nat} {f : File} (hf : p[j]? = some f)
     {n : Bytes} {c : Cat} (hd : Declares f n c) :
-    splitLastDot n = none ∧ specBase n = none ∧ isContainerName n = false := by
+    splitLastDot n = none ∧ specBase n = none ∧ isContainerName n = false ∧ n ≠ [] := by
   have hfm : f ∈ p := List.mem_of_getElem? hf
   have h1 : f.saneNames = true := by
     unfold Program.saneNames at hs
@@ -16,8 +16,9 @@ theorem sane_of {p : Program} (hs : p.saneNames = true) {j : Nat} {f : File} (hf
     unfold File.names
     exact List.mem_map.mpr ⟨(n, c), (declared_iff f n c).mpr hd, rfl⟩
   have := List.all_eq_true.mp h1 n hn
-  simp only [Bool.and_eq_true, Option.isNone_iff_eq_none, Bool.not_eq_eq_eq_not, Bool.not_true] at this
-  exact ⟨this.1.1, this.1.2, this.2⟩
+  simp only [Bool.and_eq_true, Option.isNone_iff_eq_none, Bool.not_eq_eq_eq_not, Bool.not_true,
+    List.isEmpty_eq_false_iff] at this
+  exact ⟨this.1.1.2, this.1.2, this.2, this.1.1.1⟩
 
 /-- `vals` are the value names of enum `e`. -/
 def EnumVals (p : Program) (e : Nat × Bytes) (vals : List Bytes) : Prop :=
@@ -78,12 +79,8 @@ theorem declares_enum {f : File} {n : Bytes} (h : Declares f n .enum) : ∃ e, e
   | @structLike s h => cases hk : s.kind <;> rw [hk] at hc <;> cases hc
   | service h => cases hc
 
-theorem container_kw (te : TypeExpr) (h : ∀ n, te ≠ .name n) : isContainerName te.rootName = true := by
-  cases te with
-  | name n => exact absurd rfl (h n)
-  | list v => decide
-  | set v => decide
-  | map k v => decide
+theorem kw_container : isContainerName kwList = true ∧ isContainerName kwSet = true ∧ isContainerName kwMap = true := by
+  decide
 
 /-- getEnum finds only what `EnumDen` allows (sane names). -/
 theorem getEnum_sound {p : Program} (hs : p.saneNames = true) {views : Nat → Option FileView}
@@ -141,7 +138,7 @@ theorem getEnum_sound {p : Program} (hs : p.saneNames = true) {views : Nat → O
                 obtain ⟨e, hed, hev⟩ := getEnum_sound hs hv fuel j root.rootName vals idx hr
                 obtain ⟨g', c', hg', hd'⟩ := enumDen_declares hed
                 rw [hg] at hg'; simp only [Option.some.injEq] at hg'; subst hg'
-                obtain ⟨s1, s2, s3⟩ := sane_of hs hg hd'
+                obtain ⟨s1, s2, s3, _⟩ := sane_of hs hg hd'
                 rw [hrn] at s1 s2 s3 hed
                 cases hty : td.type with
                 | name n =>
@@ -151,9 +148,9 @@ theorem getEnum_sound {p : Program} (hs : p.saneNames = true) {views : Nat → O
                   have := EnumDen.tdLoc hg htdm hty s2 s1 hed
                   rw [hal] at this
                   exact this
-                | list x => rw [hty] at s3; exact absurd s3 (by decide)
-                | set x => rw [hty] at s3; exact absurd s3 (by decide)
-                | map x y => rw [hty] at s3; exact absurd s3 (by decide)
+                | list x => rw [hty] at s3; simp only [TypeExpr.rootName, kw_container.1] at s3; cases s3
+                | set x => rw [hty] at s3; simp only [TypeExpr.rootName, kw_container.2.1] at s3; cases s3
+                | map x y => rw [hty] at s3; simp only [TypeExpr.rootName, kw_container.2.2] at s3; cases s3
               cases hr : root.ref with
               | none => rw [hr] at h; exact fallback h hr
               | some r =>
@@ -310,5 +307,197 @@ theorem getEnum_complete {p : Program} {views : Nat → Option FileView} (hv : A
             subst e1
             simp only [Except.ok.injEq] at hr
             exact ⟨vals, hr.symm, e2⟩
+
+end Sem
+
+namespace Sem
+
+/-! ### candidates against `ConstCand` -/
+
+theorem mem_enumCands {vals : List Bytes} {x : Bytes} {mk c : Cand} :
+    c ∈ enumCands vals x mk ↔ c = mk ∧ x ∈ vals := by
+  unfold enumCands
+  simp only [List.mem_map, List.mem_filter, decide_eq_true_eq]
+  constructor
+  · rintro ⟨y, ⟨hy, rfl⟩, e⟩; exact ⟨e.symm, hy⟩
+  · rintro ⟨e, hx⟩; exact ⟨x, ⟨hx, rfl⟩, e.symm⟩
+
+theorem mem_incConstCands (a v : Bytes) : ∀ (l : List IncInfo) (k0 : Nat) (c : Cand),
+    c ∈ incConstCands a v l k0 ↔
+      ∃ (j : Nat) (ii : IncInfo), l[j]? = some ii ∧ ii.pfx = a ∧ ii.n2c v = some .constant ∧
+        c = (⟨false, ((k0 + j : Nat) : Int), v, a⟩, some (k0 + j))
+  | [], k0, c => by simp [incConstCands]
+  | inc :: r, k0, c => by
+    simp only [incConstCands]
+    have ih := mem_incConstCands a v r (k0 + 1) c
+    have shift : (∃ (j : Nat) (ii : IncInfo), r[j]? = some ii ∧ ii.pfx = a ∧ ii.n2c v = some .constant ∧
+        c = (⟨false, ((k0 + 1 + j : Nat) : Int), v, a⟩, some (k0 + 1 + j))) ↔
+        (∃ (j : Nat) (ii : IncInfo), (inc :: r)[j + 1]? = some ii ∧ ii.pfx = a ∧ ii.n2c v = some .constant ∧
+        c = (⟨false, ((k0 + (j + 1) : Nat) : Int), v, a⟩, some (k0 + (j + 1)))) := by
+      constructor
+      · rintro ⟨j, ii, h1, h2, h3, h4⟩
+        exact ⟨j, ii, by simpa using h1, h2, h3, by rw [h4]; congr 2 <;> omega⟩
+      · rintro ⟨j, ii, h1, h2, h3, h4⟩
+        exact ⟨j, ii, by simpa using h1, h2, h3, by rw [h4]; congr 2 <;> omega⟩
+    have tail : c ∈ incConstCands a v r (k0 + 1) →
+        ∃ (j : Nat) (ii : IncInfo), (inc :: r)[j]? = some ii ∧ ii.pfx = a ∧ ii.n2c v = some .constant ∧
+          c = (⟨false, ((k0 + j : Nat) : Int), v, a⟩, some (k0 + j)) := by
+      intro h
+      obtain ⟨j, ii, h1, h2, h3, h4⟩ := shift.mp (ih.mp h)
+      exact ⟨j + 1, ii, h1, h2, h3, h4⟩
+    have untail : ∀ (j : Nat) (ii : IncInfo), (inc :: r)[j + 1]? = some ii → ii.pfx = a → ii.n2c v = some .constant →
+        c = (⟨false, ((k0 + (j + 1) : Nat) : Int), v, a⟩, some (k0 + (j + 1))) → c ∈ incConstCands a v r (k0 + 1) :=
+      fun j ii h1 h2 h3 h4 => ih.mpr (shift.mpr ⟨j, ii, h1, h2, h3, h4⟩)
+    by_cases hp : inc.pfx = a
+    · rw [if_pos hp]
+      cases hn : inc.n2c v with
+      | none =>
+        simp only
+        constructor
+        · exact tail
+        · rintro ⟨j, ii, h1, h2, h3, h4⟩
+          cases j with
+          | zero =>
+            simp only [List.getElem?_cons_zero, Option.some.injEq] at h1
+            subst h1; rw [hn] at h3; cases h3
+          | succ j => exact untail j ii h1 h2 h3 h4
+      | some cc =>
+        simp only
+        by_cases hc : cc = .constant
+        · rw [if_pos hc]
+          simp only [List.mem_cons]
+          constructor
+          · rintro (e | h)
+            · exact ⟨0, inc, rfl, hp, by rw [hn, hc], by rw [e]; simp⟩
+            · exact tail h
+          · rintro ⟨j, ii, h1, h2, h3, h4⟩
+            cases j with
+            | zero => left; rw [h4]; simp
+            | succ j => exact Or.inr (untail j ii h1 h2 h3 h4)
+        · rw [if_neg hc]
+          constructor
+          · exact tail
+          · rintro ⟨j, ii, h1, h2, h3, h4⟩
+            cases j with
+            | zero =>
+              simp only [List.getElem?_cons_zero, Option.some.injEq] at h1
+              subst h1; rw [hn] at h3
+              simp only [Option.some.injEq] at h3
+              exact absurd h3 hc
+            | succ j => exact untail j ii h1 h2 h3 h4
+    · rw [if_neg hp]
+      constructor
+      · exact tail
+      · rintro ⟨j, ii, h1, h2, h3, h4⟩
+        cases j with
+        | zero =>
+          simp only [List.getElem?_cons_zero, Option.some.injEq] at h1
+          subst h1; exact absurd h2 hp
+        | succ j => exact untail j ii h1 h2 h3 h4
+
+theorem mem_incEnumCands (views : Nat → Option FileView) (fuel : Nat) (a e v : Bytes) :
+    ∀ (l : List IncInfo) (k0 : Nat) (cs : List Cand), incEnumCands views fuel a e v l k0 = .ok cs →
+      (∀ (j : Nat) (ii : IncInfo), l[j]? = some ii → ii.pfx = a → ∃ r, getEnum views fuel ii.target e = .ok r) ∧
+      ∀ c, c ∈ cs ↔
+        ∃ (j : Nat) (ii : IncInfo) (vals : List Bytes) (idx : Int), l[j]? = some ii ∧ ii.pfx = a ∧
+          getEnum views fuel ii.target e = .ok (some vals, idx) ∧ v ∈ vals ∧
+          c = (⟨true, ((k0 + j : Nat) : Int), v, e⟩, some (k0 + j))
+  | [], k0, cs => by
+    intro h
+    simp only [incEnumCands, Except.ok.injEq] at h
+    subst h
+    simp
+  | inc :: r, k0, cs => by
+    intro h
+    simp only [incEnumCands] at h
+    have lift : ∀ (cs' : List Cand), incEnumCands views fuel a e v r (k0 + 1) = .ok cs' →
+        (∀ (j : Nat) (ii : IncInfo), r[j]? = some ii → ii.pfx = a → ∃ r', getEnum views fuel ii.target e = .ok r') ∧
+        ∀ c, c ∈ cs' ↔
+          ∃ (j : Nat) (ii : IncInfo) (vals : List Bytes) (idx : Int), (inc :: r)[j + 1]? = some ii ∧ ii.pfx = a ∧
+            getEnum views fuel ii.target e = .ok (some vals, idx) ∧ v ∈ vals ∧
+            c = (⟨true, ((k0 + (j + 1) : Nat) : Int), v, e⟩, some (k0 + (j + 1))) := by
+      intro cs' h'
+      obtain ⟨i1, i2⟩ := mem_incEnumCands views fuel a e v r (k0 + 1) cs' h'
+      refine ⟨i1, ?_⟩
+      intro c
+      rw [i2 c]
+      constructor
+      · rintro ⟨j, ii, vals, idx, h1, h2, h3, h4, h5⟩
+        exact ⟨j, ii, vals, idx, by simpa using h1, h2, h3, h4, by rw [h5]; congr 2 <;> omega⟩
+      · rintro ⟨j, ii, vals, idx, h1, h2, h3, h4, h5⟩
+        exact ⟨j, ii, vals, idx, by simpa using h1, h2, h3, h4, by rw [h5]; congr 2 <;> omega⟩
+    by_cases hp : inc.pfx = a
+    · rw [if_pos hp] at h
+      cases hg : getEnum views fuel inc.target e with
+      | error err => rw [hg] at h; simp at h
+      | ok res =>
+        obtain ⟨en, idx⟩ := res
+        rw [hg] at h
+        simp only at h
+        cases hr : incEnumCands views fuel a e v r (k0 + 1) with
+        | error err => rw [hr] at h; simp at h
+        | ok rest =>
+          rw [hr] at h
+          simp only at h
+          obtain ⟨l1, l2⟩ := lift rest hr
+          refine ⟨?_, ?_⟩
+          · intro j ii h1 h2
+            cases j with
+            | zero =>
+              simp only [List.getElem?_cons_zero, Option.some.injEq] at h1
+              subst h1; exact ⟨_, hg⟩
+            | succ j => exact l1 j ii (by simpa using h1) h2
+          · intro c
+            cases en with
+            | none =>
+              simp only [Except.ok.injEq] at h
+              subst h
+              rw [l2 c]
+              constructor
+              · rintro ⟨j, ii, vals, idx', q⟩; exact ⟨j + 1, ii, vals, idx', q⟩
+              · rintro ⟨j, ii, vals, idx', h1, h2, h3, h4, h5⟩
+                cases j with
+                | zero =>
+                  simp only [List.getElem?_cons_zero, Option.some.injEq] at h1
+                  subst h1; rw [hg] at h3; simp at h3
+                | succ j => exact ⟨j, ii, vals, idx', h1, h2, h3, h4, h5⟩
+            | some vals0 =>
+              simp only [Except.ok.injEq] at h
+              subst h
+              rw [List.mem_append, mem_enumCands, l2 c]
+              constructor
+              · rintro (⟨e1, e2⟩ | ⟨j, ii, vals, idx', q⟩)
+                · exact ⟨0, inc, vals0, idx, rfl, hp, hg, e2, by rw [e1]; simp⟩
+                · exact ⟨j + 1, ii, vals, idx', q⟩
+              · rintro ⟨j, ii, vals, idx', h1, h2, h3, h4, h5⟩
+                cases j with
+                | zero =>
+                  simp only [List.getElem?_cons_zero, Option.some.injEq] at h1
+                  subst h1
+                  rw [hg] at h3
+                  simp only [Except.ok.injEq, Prod.mk.injEq, Option.some.injEq] at h3
+                  obtain ⟨rfl, rfl⟩ := h3
+                  left
+                  exact ⟨by rw [h5]; simp, h4⟩
+                | succ j => exact Or.inr ⟨j, ii, vals, idx', h1, h2, h3, h4, h5⟩
+    · rw [if_neg hp] at h
+      obtain ⟨l1, l2⟩ := lift cs h
+      refine ⟨?_, ?_⟩
+      · intro j ii h1 h2
+        cases j with
+        | zero =>
+          simp only [List.getElem?_cons_zero, Option.some.injEq] at h1
+          subst h1; exact absurd h2 hp
+        | succ j => exact l1 j ii (by simpa using h1) h2
+      · intro c
+        rw [l2 c]
+        constructor
+        · rintro ⟨j, ii, vals, idx', q⟩; exact ⟨j + 1, ii, vals, idx', q⟩
+        · rintro ⟨j, ii, vals, idx', h1, h2, h3, h4, h5⟩
+          cases j with
+          | zero =>
+            simp only [List.getElem?_cons_zero, Option.some.injEq] at h1
+            subst h1; exact absurd h2 hp
+          | succ j => exact ⟨j, ii, vals, idx', h1, h2, h3, h4, h5⟩
 
 end Sem
